@@ -48,7 +48,9 @@ SkipNets == <<
   \* a skip between spatial tensors of EQUAL count but different shape (1 x 4 x 4 -> 4 x 2 x 2: the source is regrouped)
   Build(<<1, 4, 4>>, <<[kind |-> "conv", hp |-> HP(4, 2, 2, 2, 2, 0, 0, 1, 1, "linear", FALSE)], C3(1, "relu"), D(2, "linear", FALSE)>>),
   \* the U-Net pattern: a max-pool layer as the SOURCE of a skip (conv, pool, up-sampling deconv, conv, dense)
-  Build(<<1, 4, 4>>, <<C3(1, "linear"), P2, T2(1), C3(1, "relu"), D(2, "linear", FALSE)>>)
+  Build(<<1, 4, 4>>, <<C3(1, "linear"), P2, T2(1), C3(1, "relu"), D(2, "linear", FALSE)>>),
+  \* space to depth: 1 x 4 x 4 -> 2 x 2 x 4, so a skip from the network input regroups a square map into NON-SQUARE planes
+  Build(<<1, 4, 4>>, <<[kind |-> "conv", hp |-> HP(2, 2, 1, 2, 1, 0, 0, 1, 1, "linear", FALSE)], C3(1, "relu"), D(2, "linear", FALSE)>>)
 >>
 LoopNets == <<
   Build(<<4>>, <<D(4, "relu", TRUE), D(4, "linear", FALSE), D(4, "relu", TRUE), D(2, "linear", FALSE)>>),
